@@ -60,7 +60,13 @@ def region(first, last):
         for s in body:
             yield s
     def pick(body):
-        for cand in [body] + [w.body for w in ast.walk(ast.Module(body=body, type_ignores=[])) if isinstance(w, ast.With)]:
+        lists = [body]
+        for w in ast.walk(ast.Module(body=body, type_ignores=[])):
+            for fld in ("body", "orelse", "finalbody"):
+                v = getattr(w, fld, None)
+                if isinstance(v, list) and v and isinstance(v[0], ast.stmt) and v is not body:
+                    lists.append(v)
+        for cand in lists:
             out, on = [], False
             for s in flat(cand):
                 txt = ast.unparse(s)
